@@ -486,6 +486,80 @@ def _diff(sa, sb):
     return {k: "differs" for k in sa if sa[k] != sb[k]}
 
 
+# ---------------------------------------------------------------- Spec.relabelF / BaseHyp: the phase-2 theorems, executed
+
+def py_relabel(lm, rho, kappa):
+    """independent re-implementation of `Spec.relabelF rho kappa`: points in the order rho (new -> old), corners
+    renamed through the inverse map, cells of block k in the order kappa[k], field rows moved along; no noise, no
+    extra orphans, blocks in place"""
+    inv = {old: new for new, old in enumerate(rho)}
+    out = {"dim": lm["dim"], "points": [list(lm["points"][o]) for o in rho], "cells": [], "pf": [], "cf": []}
+    for f in lm["pf"]:
+        rs = meshgen._rowsize(f["tail"])
+        out["pf"].append(dict(f, v=[x for o in rho for x in f["v"][o * rs:(o + 1) * rs]]))
+    cp = {}
+    for (t, rows), k in zip(lm["cells"], kappa):
+        cp[t] = k
+        out["cells"].append([t, [[inv[i] for i in rows[c]] for c in k]])
+    for f in lm["cf"]:
+        rs = meshgen._rowsize(f["tail"])
+        out["cf"].append(dict(f, v=[x for c in cp[f["ctype"]] for x in f["v"][c * rs:(c + 1) * rs]]))
+    return out
+
+
+def _enc_list(l):
+    return " ".join([str(len(l))] + [str(x) for x in l])
+
+
+def relabel_checks(ctx, pairs):
+    """for base data sets A: B = py_relabel(A, rho, kappa); the driver evaluates `Spec.relabelF` (must equal B), the
+    decidable hypothesis `Spec.baseHyp` of the phase-2 theorems and their conclusions; the implementation must agree
+    with the conclusions whenever the hypothesis holds"""
+    rng = ctx.rng
+    jobs = []
+    for A, _, tags, _ in pairs:
+        if len({t for t, _ in A["cells"]}) != len(A["cells"]):
+            continue
+        kind = rng.choice(["identity", "reversal", "random", "random", "blockswap", "transposition"])
+        rho = perm_of_kind(rng, len(A["points"]), kind)
+        kappa = [perm_of_kind(rng, len(rows), rng.choice(["identity", "random", "random", "reversal"])) for _, rows in A["cells"]]
+        B = py_relabel(A, rho, kappa)
+        line = ("c02relabel " + meshgen.enc_fields(A) + " " + _enc_list(rho) + " " + str(len(kappa)) + " " +
+                " ".join(_enc_list(k) for k in kappa) + " " + meshgen.enc_fields(B))
+        jobs.append((A, B, rho, kappa, [t for t in tags if not t.startswith(("relabel=", "noise="))] + [f"relabelF={kind}"], line))
+    reps = _lean(ctx, [j[-1] for j in jobs])
+    for (A, B, rho, kappa, tags, _), rep in zip(jobs, reps):
+        case = {"kind": "relabelF", "a": A, "b": B, "rho": rho, "kappa": kappa}
+        if rep is None:
+            continue
+        hyp = rep.get("hyp") == "1"
+        rigid = rep.get("rigid") == "1"
+        cont = rep.get("cont") == "1"
+        ctx.case(("relabelF", _key(A), tuple(rho), repr(kappa)), nontrivial=hyp,
+                 tags=tags + ["base-hyp" if hyp else "base-nohyp", "rigid" if rigid else "not-rigid",
+                              "continuous-hyp" if cont else "coincident-or-nosep"])
+        if rep.get("model") != "1":
+            ctx.inconsistent(case, rep.get("model"), "Spec.relabelF differs from the harness's independent relabelling")
+        if not hyp:
+            continue
+        if rep.get("canon") != "1":
+            ctx.inconsistent(case, f"canon={rep.get('canon')}", "theorem C02_sort_canonical: sort(relabel A) = sort(A)")
+        if rigid and rep.get("pass") != "1":
+            ctx.inconsistent(case, f"pass={rep.get('pass')}", "theorem C02_no_false_fail_noise_free_partial: ladder passes in both roles")
+        if cont and (not rigid or rep.get("pass") != "1"):
+            ctx.inconsistent(case, f"rigid={rep.get('rigid')} pass={rep.get('pass')}",
+                             "theorems C02_rigid_without_coincident_points / C02_no_false_fail_continuous")
+        sa, sb = impl_sorted(A), impl_sorted(B)
+        if sa != sb or isinstance(sa, str):
+            ctx.violation({"kind": "canon", "a": A, "b": B}, _diff(sa, sb), "identical sorted representations",
+                          what="sort(A) and sort(relabel A) differ although BaseHyp holds")
+        for src, ref in ((B, A), (A, B)):
+            impl, _ = impl_compare(src, ref)
+            if not passes(impl):
+                ctx.violation(_shrink_ladder({"kind": "ladder", "src": src, "ref": ref, "flags": [False, False, False]}), impl,
+                              "1:<every field passed>", what="relabelled pair inside BaseHyp does not compare as passed")
+
+
 # ---------------------------------------------------------------- the comparator ladder
 
 def ladder_line(src, ref, flags):
@@ -623,6 +697,7 @@ def run(ctx):
         pairs = [gen_pair(ctx.rng, big=(ctx.tier == "thorough" and (done + j) % 10 == 0)) for j in range(min(CH, n_pairs - done))]
         sort_checks(ctx, pairs)
         ladder_checks(ctx, pairs, cli_budget)
+        relabel_checks(ctx, pairs[:ctx.scale(40, 150)])
         done += len(pairs)
     if ctx.tier == "thorough":
         exhaustive(ctx)
@@ -644,15 +719,21 @@ def _f1_regression():
     return A, meshgen.relabel(rng, A)
 
 
+def _run_witness(entry):
+    from fcv import core
+    try:
+        return core.run_named_witness(entry)
+    except Exception as e:   # noqa: BLE001  the implementation raising inside a witness is an observable: the witness fails
+        return True, f"exception:{type(e).__name__}"
+
+
 def replay_witness(ctx, entry):
     if entry.get("id") == "F1":
         A, B = _f1_regression()
         obs = [impl_compare(B, A)[0], impl_compare(A, B)[0]]
-        from fcv import core
-        f2, detail = core.run_named_witness(entry)
+        f2, detail = _run_witness(entry)
         return (not all(passes(o) for o in obs)) or f2, {"ladder": obs, "witness": detail}
-    from fcv import core
-    return core.run_named_witness(entry)
+    return _run_witness(entry)
 
 
 def replay(ctx, payload):
